@@ -637,6 +637,13 @@ def _inherent(head, last, plain, c):
                 return err(I, cur)
             raise Unmodelled(f"{head}::{last}")
         return atom
+    if head == "Condvar":
+        def cv(I, a, fr, d):
+            if last == "new": return Agg("Condvar", [])
+            if last in ("notify_one", "notify_all"): return unit()
+            if last == "wait": return ok(I, a[1])          # a spurious wake-up, which std allows: the caller's loop re-checks its condition
+            raise Unmodelled(f"Condvar::{last} (would block in a single-threaded trace)")
+        return cv
     if head == "Mutex":
         return colls.mutex_method(last)
     if head == "String" or plain.startswith("std::string::String::"):
